@@ -755,6 +755,9 @@ fn judge(plan: &Plan, r: &RunResult, stats: &mut Stats, log: &mut LogHash) -> Ve
                     let complete = c.ev1.is_some();
                     if newb < cur_base && stored_seq.is_some() {
                         push_v(&mut vs, "C13", "C13.older_accepted", format!("update with base {} was applied over current base {}", newb, cur_base));
+                        // The NFS base time is this very cell, driven by concurrent
+                        // observe (try_update) and scan (update) calls.
+                        push_v(&mut vs, "C19", "C19.concurrent_decrease", format!("two overlapping writers: the base time went from {} back to {}", cur_base, newb));
                     }
                     if newb > cur_base && stored_seq.is_none() && complete {
                         push_v(&mut vs, "C13", "C13.newer_ignored", format!("update with base {} was dropped although the current base was {}", newb, cur_base));
@@ -853,7 +856,7 @@ impl World for ThreadsWorld {
         KINDS
     }
     fn serves(&self) -> &'static [&'static str] {
-        &["C13", "C18"]
+        &["C13", "C18", "C19"]
     }
     fn runs(&self, ask: Ask) -> u64 {
         match (ask.prop, ask.thorough) {
@@ -912,7 +915,15 @@ impl World for ThreadsWorld {
             if rng.chance(1, 2) {
                 ops.push(Op::new("call", [nw as u64, 0, 0, 0]));
             }
-            ops.push(Op::new("call", [nw as u64 + 1, 2, if rng.chance(1, 4) { 0 } else { 50 + next_arg }, 0]));
+            // Offered base: older than, close to, and far ahead of what the writers offer.
+            let offered = match rng.below(5) {
+                0 => 0,
+                1 => 50 + next_arg,
+                2 => 400 + next_arg,
+                3 => 5_000 + next_arg,
+                _ => 1_000_000 + next_arg,
+            };
+            ops.push(Op::new("call", [nw as u64 + 1, 2, offered, 0]));
             return Plan { world: "threads", mode: if two { "stall-2".into() } else { "stall-1".into() }, seed, index, knobs, ops };
         }
         let nw = rng.range(1, 2) as usize;
@@ -925,6 +936,11 @@ impl World for ThreadsWorld {
                 // Mostly increasing, sometimes equal to or older than an earlier one.
                 let arg = match rng.below(8) {
                     0 if next_arg > 1 => rng.range(1, next_arg - 1),
+                    1 => {
+                        // A jump far ahead (minutes), as after a long pause.
+                        next_arg += 10_000 + rng.below(100_000);
+                        next_arg - 1
+                    }
                     _ => {
                         next_arg += 1;
                         next_arg - 1
